@@ -56,6 +56,11 @@ def run(an: Analysis, rep):
                         rep.add("R06.1", f"{ci.qual}.{f.name}", ok, loc(fn.module, arm.kws[f.name]),
                                 f"reset to {norm_src(arm.kws[f.name])} == declared default" if ok
                                 else f"set to {norm_src(arm.kws[f.name])}, which is not the declared default {d!r}")
+                    elif f.name in arm.cond:
+                        g, v = arm.cond[f.name]
+                        rep.add("R06.1", f"{ci.qual}.{f.name}", False, loc(fn.module, v),
+                                f"private field {f.name} is reset only when `{norm_src(g)}`: otherwise the serialization artefact survives normalization - two values that differ only "
+                                f"in {f.name} (e.g. the CO_NESTED flag set on a code object where the guard is false) normalize to different data")
                     elif arm.kind == "ctor":
                         rep.add("R06.1", f"{ci.qual}.{f.name}", True, loc(fn.module, arm.ret), "constructor call omits the field: declared default")
                     else:
@@ -105,6 +110,8 @@ def run(an: Analysis, rep):
     sh = SharedRules(rep, "R06.R", "encoder re-layout and table keys (shared with C03's R03.3/R03.7): normalize -> to_code -> from_code -> normalize is a fixed point only if they hold")
     rep.run(c03.r037, an, sh)
     rep.run(c03.r033, an, sh, c03.table_class(an))
+    from . import c02
+    rep.run(c02.jump_rules, an, SharedRules(rep, "R06.C", "jump and cell/free operand arithmetic agree between encoder and decoder (shared with C02's R02.3/R02.4): a code round trip keeps every operand's class and target, so re-normalizing gives the same data"))
     from . import c05
     rep.run(c05.r053, an, SharedRules(rep, "R06.D", "docstring slot (shared with C05's R05.3): normalize -> to_code -> from_code -> normalize keeps `docstring`"))
     from . import c07
